@@ -179,6 +179,21 @@ func (k *KVStore) NewEntry() storage.Entry {
 	return entry.New()
 }
 
+// deleteFromPreviousTables removes the superseded versions of the key from the tables
+// created before the last one. The latest version always lives in the last table.
+func (k *KVStore) deleteFromPreviousTables(hkey uint64) error {
+	for i := len(k.tables) - 2; i >= 0; i-- {
+		err := k.tables[i].Delete(hkey)
+		if errors.Is(err, table.ErrHKeyNotFound) {
+			continue
+		}
+		if err != nil {
+			return err
+		}
+	}
+	return nil
+}
+
 // PutRaw sets the raw value for the given key.
 func (k *KVStore) PutRaw(hkey uint64, value []byte) error {
 	if uint64(len(value)) > k.tableSize {
@@ -210,6 +225,9 @@ func (k *KVStore) PutRaw(hkey uint64, value []byte) error {
 		break
 	}
 
+	if err := k.deleteFromPreviousTables(hkey); err != nil {
+		return err
+	}
 	return nil
 }
 
@@ -245,6 +263,9 @@ func (k *KVStore) Put(hkey uint64, value storage.Entry) error {
 		break
 	}
 
+	if err := k.deleteFromPreviousTables(hkey); err != nil {
+		return err
+	}
 	return nil
 }
 
